@@ -47,6 +47,7 @@ type clusterCache struct {
 	proxyView               model.ProxyView
 	metadataCerts           *metadataCerts // metadata certificates of proxy
 	endpointBuilder         *endpoints.EndpointBuilder
+	dnsLookupFamily         string // DNS lookup family selected from the proxy's own addresses (STRICT_DNS/LOGICAL_DNS clusters)
 
 	// service attributes
 	http2          bool // http2 identifies if the cluster is for an http2 service
@@ -86,6 +87,8 @@ func (t *clusterCache) Key() any {
 	h.WriteString(strconv.FormatBool(t.supportsIPv4))
 	h.Write(Separator)
 	h.WriteString(strconv.FormatBool(t.hbone))
+	h.Write(Separator)
+	h.WriteString(t.dnsLookupFamily)
 	h.Write(Separator)
 
 	if t.proxyView != nil {
@@ -203,6 +206,7 @@ func buildClusterKey(service *model.Service, port *model.Port, cb *ClusterBuilde
 		http2:                   port.Protocol.IsHTTP2(),
 		downstreamAuto:          cb.sidecarProxy() && port.Protocol.IsUnsupported(),
 		supportsIPv4:            cb.supportsIPv4,
+		dnsLookupFamily:         util.SelectDNSLookupFamily(cb.proxyIPAddresses).String(),
 		service:                 service,
 		destinationRule:         dr,
 		envoyFilterKeys:         efKeys,
